@@ -158,7 +158,14 @@ func DAGMutex.registerMutexes
 -- by a Broadcast on the condition variable of that direction - set / update record the promise while they hold the lock
 -- (owe), Set / Update deliver it right after (a function returns with the debts it was called with, unless declared).
 type Counter
-  monitor valueMutex guards value cond valueIncreasedCond, valueDecreasedCond
+  ghost lateInc Int      -- goroutines that went to sleep on valueIncreasedCond after the last increase
+  ghost lateDec Int      -- goroutines that went to sleep on valueDecreasedCond after the last decrease
+  monitor valueMutex guards value, lateInc, lateDec cond valueIncreasedCond, valueDecreasedCond
+  -- a change wakes EVERY goroutine that was asleep on the condition variable of its direction (they wait for different
+  -- thresholds): whoever is asleep went to sleep after the last such change, or a notification for it is still owed
+  invariant self.lateInc >= 0 && self.lateDec >= 0
+  invariant self.owed_valueIncreasedCond > 0 || self.sleep_valueIncreasedCond <= self.lateInc
+  invariant self.owed_valueDecreasedCond > 0 || self.sleep_valueDecreasedCond <= self.lateDec
   invariant 0 <= self.sleep_valueIncreasedCond && 0 <= self.sleep_valueDecreasedCond && 0 <= self.owed_valueIncreasedCond && 0 <= self.owed_valueDecreasedCond && 0 <= self.wake_valueIncreasedCond && 0 <= self.wake_valueDecreasedCond
 
 -- the subscribers run under the value mutex of the counter: they cannot call back into it (assumed: they do not reach it
@@ -170,6 +177,8 @@ func Counter.WaitIsBelow
   requires c != nil && unlocked(c.valueMutex) && c.valueDecreasedCond != nil
   modifies monitor(c)
   loop 1 invariant held(c.valueMutex) && moninv(c)
+  opt assume-no-overflow
+  ghost before wait: c.lateDec = c.lateDec + 1
   ghost before unlock: assert c.value < threshold
   ensures unlocked(c.valueMutex)
 
@@ -177,6 +186,8 @@ func Counter.WaitIsAbove
   requires c != nil && unlocked(c.valueMutex) && c.valueIncreasedCond != nil
   modifies monitor(c)
   loop 1 invariant held(c.valueMutex) && moninv(c)
+  opt assume-no-overflow
+  ghost before wait: c.lateInc = c.lateInc + 1
   ghost before unlock: assert c.value > threshold
   ensures unlocked(c.valueMutex)
 
@@ -186,6 +197,8 @@ func Counter.set
   modifies monitor(c)
   ghost before unlock: owe valueIncreasedCond if oldValue < newValue
   ghost before unlock: owe valueDecreasedCond if oldValue > newValue
+  ghost before unlock: c.lateInc = (oldValue < newValue ? 0 : c.lateInc)
+  ghost before unlock: c.lateDec = (oldValue > newValue ? 0 : c.lateDec)
   ensures unlocked(c.valueMutex)
   ensures mydebt(c.valueIncreasedCond) == old(mydebt(c.valueIncreasedCond)) + (oldValue < newValue ? 1 : 0)
   ensures mydebt(c.valueDecreasedCond) == old(mydebt(c.valueDecreasedCond)) + (oldValue > newValue ? 1 : 0)
@@ -202,6 +215,8 @@ func Counter.update
   modifies monitor(c)
   ghost before unlock: owe valueIncreasedCond if delta >= 1
   ghost before unlock: owe valueDecreasedCond if delta <= 0 - 1
+  ghost before unlock: c.lateInc = (delta >= 1 ? 0 : c.lateInc)
+  ghost before unlock: c.lateDec = (delta <= 0 - 1 ? 0 : c.lateDec)
   ensures unlocked(c.valueMutex)
   ensures mydebt(c.valueIncreasedCond) == old(mydebt(c.valueIncreasedCond)) + (delta >= 1 ? 1 : 0)
   ensures mydebt(c.valueDecreasedCond) == old(mydebt(c.valueDecreasedCond)) + (delta <= 0 - 1 ? 1 : 0)
